@@ -1,13 +1,13 @@
 //@ unit scope
 //@ serves C10
-//@ must_verify Stack::new Stack::get Stack::is_bound Stack::add Stack::snapshot Stack::remove_symbol VM::binding_push VM::op_bind VM::clean_copy VM::to_scoped VM::pop
+//@ must_verify VM::op_func VM::to_new_pointer VM::with_import_stack VM::with_pointer VM::op_new_scope VM::fcall_impl VM::op_func VM::push Stack::new Stack::get Stack::is_bound Stack::add Stack::snapshot Stack::remove_symbol VM::binding_push VM::op_bind VM::clean_copy VM::to_scoped VM::pop
 //@ include prelude/head.rs
 use std::rc::Rc;
 
 verus! {
 //@ include prelude/core.rs
-//@ opaque Position VPathBuf OpPointer Builtins Func Module ConstraintVal
-//@ clone_spec Position VPathBuf OpPointer Builtins
+//@ opaque Position VPathBuf OpPointer Builtins Module ConstraintVal VEnvCell
+//@ clone_spec Position VPathBuf OpPointer Builtins Stack
 
 #[verifier::external_body]
 pub struct Error { _p: u8 }
@@ -23,6 +23,9 @@ impl Error {
 //@ end
 //@ extract src/build/opcode/mod.rs :: enum Value
 //@   rule R0
+//@ end
+//@ extract src/build/opcode/mod.rs :: struct Func
+//@   rule R0 RV
 //@ end
 use Primitive::{Bool, Empty, Float, Int, Str};
 use Composite::{List, Tuple};
@@ -111,7 +114,7 @@ impl Copy for ReservedWords {}
 //@   subst "reserved_words: &'static BTreeSet<&'static str>" => "reserved_words: ReservedWords"
 //@ end
 
-pub open spec fn bindings(vm: VM) -> Map<Seq<char>, (Rc<Value>, Position)> { vm.symbols.curr@ }
+pub open spec fn scope_of(vm: VM) -> Map<Seq<char>, (Rc<Value>, Position)> { vm.symbols.curr@ }
 
 pub open spec fn others_unchanged(a: VM, b: VM) -> bool {
     a.stack == b.stack && a.self_stack == b.self_stack && a.ops == b.ops && a.import_stack == b.import_stack
@@ -127,11 +130,11 @@ pub open spec fn others_unchanged(a: VM, b: VM) -> bool {
             // a reserved word can never be bound
             must_refuse(name@) ==> r is Err,
             // an existing binding is never changed by a strict bind (immutability)
-            (strict && bindings(*old(self)).contains_key(name@)) ==> r is Err,
-            r is Err ==> bindings(*final(self)) == bindings(*old(self)),
+            (strict && scope_of(*old(self)).contains_key(name@)) ==> r is Err,
+            r is Err ==> scope_of(*final(self)) == scope_of(*old(self)),
             // otherwise exactly this one name is (re)bound; every other binding is untouched
-            r is Ok ==> bindings(*final(self)) == bindings(*old(self)).insert(name@, (val, *pos)),
-            r is Ok <==> !src_reserved(name@) && !(strict && bindings(*old(self)).contains_key(name@)),
+            r is Ok ==> scope_of(*final(self)) == scope_of(*old(self)).insert(name@, (val, *pos)),
+            r is Ok <==> !src_reserved(name@) && !(strict && scope_of(*old(self)).contains_key(name@)),
 //@   >>>
 //@   mutant bind_nonstrict "self.symbols.is_bound(&name) && strict" => "self.symbols.is_bound(&name) && !strict" expect binding_push
 //@   mutant bind_no_reserved "if self.reserved_words.contains(name.as_ref()) {" => "if false && self.reserved_words.contains(name.as_ref()) {" expect binding_push
@@ -156,9 +159,9 @@ pub open spec fn others_unchanged(a: VM, b: VM) -> bool {
             let n = old(self).stack@.len() as int;
             let name = (*old(self).stack@[n - 2].0)->S_0@; let val = old(self).stack@[n - 1];
             &&& (must_refuse(name) ==> r is Err)
-            &&& ((strict && bindings(*old(self)).contains_key(name)) ==> r is Err)
-            &&& (r is Err ==> bindings(*final(self)) == bindings(*old(self)))
-            &&& (r is Ok ==> bindings(*final(self)) == bindings(*old(self)).insert(name, (val.0, val.1)))
+            &&& ((strict && scope_of(*old(self)).contains_key(name)) ==> r is Err)
+            &&& (r is Err ==> scope_of(*final(self)) == scope_of(*old(self)))
+            &&& (r is Ok ==> scope_of(*final(self)) == scope_of(*old(self)).insert(name, (val.0, val.1)))
         })
 //@   >>>
 //@   mutant op_bind_swapped "self.binding_push(name.clone(), val, strict, &val_pos, &name_pos)" => "self.binding_push(name.clone(), val, !strict, &val_pos, &name_pos)" expect op_bind
@@ -168,7 +171,7 @@ pub open spec fn others_unchanged(a: VM, b: VM) -> bool {
 //@   ret r
 //@   sig <<<
         // module isolation: a clean VM sees none of the surrounding bindings
-        ensures bindings(r) == Map::<Seq<char>, (Rc<Value>, Position)>::empty(), r.stack@.len() == 0,
+        ensures scope_of(r) == Map::<Seq<char>, (Rc<Value>, Position)>::empty(), r.stack@.len() == 0,
 //@   >>>
 //@   mutant clean_copy_leaks "symbols: Stack::new()," => "symbols: self.symbols.snapshot()," expect clean_copy
 //@ end
@@ -176,8 +179,157 @@ pub open spec fn others_unchanged(a: VM, b: VM) -> bool {
 //@   rule R4
 //@   ret r
 //@   sig <<<
-        ensures bindings(r) == symbols.curr@, r.stack == self.stack,
+        ensures scope_of(r) == symbols.curr@, r.stack == self.stack,
 //@   >>>
+//@ end
+
+
+// ---------- scopes of functions and nested scopes ----------
+// slice::to_vec: only the import stack is copied with it; its content is irrelevant here
+pub assume_specification<T: Clone> [<[T]>::to_vec] (s: &[T]) -> (r: Vec<T>);
+// slice::reverse (std): reverses in place
+pub assume_specification<T> [<[T]>::reverse] (s: &mut [T])
+    ensures final(s)@ == old(s)@.reverse();
+
+impl Builtins {
+    #[verifier::external_body]
+    pub fn new(strict: bool) -> Self { unimplemented!() }
+}
+#[verifier::external_body]
+fn reserved_words() -> ReservedWords { unimplemented!() }
+// std::env::current_dir() (R8: outside the unit)
+#[verifier::external_body]
+fn verif_current_dir() -> Result<VPathBuf, Error> { unimplemented!() }
+impl OpPointer {
+    // OpPointer::jump is proved in unit vm_ctrl; only its effect-freedom on other state matters here
+    #[verifier::external_body]
+    pub fn jump(&mut self, ptr: usize) -> Result<(), Error> { unimplemented!() }
+}
+
+impl VM {
+    // VM::run (R8: the whole interpreter loop) - ASSUMED: on success the evaluated scope left its
+    // result on the stack (translator invariant). Nothing is assumed about what it does to the child VM.
+    #[verifier::external_body]
+    pub fn run(&mut self, env: &VEnvCell) -> (r: Result<(), Error>)
+        ensures r is Ok ==> final(self).stack@.len() > 0
+    { unimplemented!() }
+
+    // proved in unit vm_ctrl; here only: it touches nothing but the instruction pointer
+    #[verifier::external_body]
+    fn op_jump(&mut self, jp: i32) -> (r: Result<(), Error>)
+        ensures final(self).symbols == old(self).symbols, final(self).stack == old(self).stack,
+    { unimplemented!() }
+}
+
+//@ extract src/build/opcode/vm.rs :: impl VM :: fn push
+//@   ret r
+//@   sig <<<
+        ensures r is Ok, final(self).stack@ == old(self).stack@.push((val, pos)),
+            final(self).symbols == old(self).symbols,
+//@   >>>
+//@ end
+//@ extract src/build/opcode/vm.rs :: impl VM :: fn to_new_pointer
+//@   rule R4
+//@   ret r
+//@   sig <<<
+        ensures r.symbols == self.symbols, r.stack == self.stack,
+//@   >>>
+//@ end
+//@ extract src/build/opcode/vm.rs :: impl VM :: fn with_import_stack
+//@   rule R4
+//@   ret r
+//@   sig <<<
+        ensures r.symbols == self.symbols, r.stack == self.stack,
+//@   >>>
+//@ end
+//@ extract src/build/opcode/vm.rs :: impl VM :: fn with_pointer
+//@   subst "with_pointer<P: Into<PathBuf>>(strict: bool, ops: OpPointer, working_dir: P)" => "with_pointer(strict: bool, ops: OpPointer, working_dir: VPathBuf)"
+//@   subst "working_dir: working_dir.into()," => "working_dir: working_dir,"
+//@   subst "runtime::Builtins::new(strict)" => "Builtins::new(strict)"
+//@   ret r
+//@   sig <<<
+        ensures scope_of(r) == Map::<Seq<char>, (Rc<Value>, Position)>::empty(), r.stack@.len() == 0,
+//@   >>>
+//@ end
+
+//@ extract src/build/opcode/vm.rs :: impl VM :: fn op_new_scope
+//@   subst "fn op_new_scope<O, E>(" => "fn op_new_scope("
+//@   subst "env: &RefCell<Environment<O, E>>," => "env: &VEnvCell,"
+//@   subst "where O: std::io::Write + Clone, E: std::io::Write + Clone," => ""
+//@   ret r
+//@   sig <<<
+        // whatever happens inside the nested scope (e.g. a format string binding `item`),
+        // the enclosing scope's bindings are exactly what they were
+        ensures scope_of(*final(self)) == scope_of(*old(self)),
+//@   >>>
+//@   before "vm.run(env)?;" <<<
+        // the nested scope starts from a copy of the enclosing bindings
+        assert(scope_of(vm) == scope_of(*old(self)));
+//@   >>>
+//@   mutant new_scope_clean ".to_scoped(scope_snapshot)" => ".to_scoped(Stack::new())" expect op_new_scope
+//@ end
+
+// the first k parameters bound, in order, on top of the captured snapshot; parameter j takes the
+// j-th value from the top of the caller's value stack `st`
+pub open spec fn bind_args(base: Map<Seq<char>, (Rc<Value>, Position)>, names: Seq<Rc<str>>, st: Seq<(Rc<Value>, Position)>, k: int) -> Map<Seq<char>, (Rc<Value>, Position)>
+    decreases k
+{
+    if k <= 0 { base } else { bind_args(base, names, st, k - 1).insert(names[k - 1]@, (st[st.len() - k].0, st[st.len() - k].1)) }
+}
+
+//@ extract src/build/opcode/vm.rs :: impl VM :: fn fcall_impl
+//@   rule R1
+//@   subst "pub fn fcall_impl<O, E>(" => "pub fn fcall_impl("
+//@   subst "env: &RefCell<Environment<O, E>>," => "env: &VEnvCell,"
+//@   subst "where O: std::io::Write + Clone, E: std::io::Write + Clone," => ""
+//@   subst "std::env::current_dir()?" => "verif_current_dir()?"
+//@   subst "let Func { ptr, bindings, snapshot, } = f;" => "let ptr = &f.ptr; let bindings = &f.bindings; let snapshot = &f.snapshot;"
+//@   ret r
+//@   sig <<<
+        requires
+            // translator invariant (caller obligation): one value per parameter is on the stack
+            old(stack)@.len() >= f.bindings@.len(),
+            // parameter names are not reserved words (the parser guarantees it)
+            forall|j: int| 0 <= j < f.bindings@.len() ==> !src_reserved(#[trigger] f.bindings@[j]@),
+//@   >>>
+//@   loop 1 iter it <<<
+            invariant
+                it.seq().len() == bindings@.len(),
+                forall|j: int| 0 <= j < bindings@.len() ==> *it.seq()[j] == bindings@[j],
+                bindings@ == f.bindings@,
+                forall|j: int| 0 <= j < f.bindings@.len() ==> !src_reserved(#[trigger] f.bindings@[j]@),
+                stack@.len() + it.index@ == old(stack)@.len(), old(stack)@.len() >= f.bindings@.len(),
+                stack@ =~= old(stack)@.subrange(0, stack@.len() as int),
+                // the callee's scope = definition-time snapshot + the arguments bound so far (last pushed = first parameter)
+                scope_of(vm) == bind_args(f.snapshot.curr@, f.bindings@, old(stack)@, it.index@),
+//@   >>>
+//@   before "vm.run(env)?;" <<<
+        // A function body starts with exactly: the bindings that existed where it was defined, plus its arguments.
+        // Nothing of the caller's scope is reachable: fcall_impl receives the caller's value stack only.
+        assert(scope_of(vm) == bind_args(f.snapshot.curr@, f.bindings@, old(stack)@, f.bindings@.len() as int));
+//@   >>>
+//@   mutant fcall_fresh_scope ".to_scoped(snapshot.clone())" => ".to_scoped(Stack::new())" expect fcall_impl
+//@ end
+
+
+//@ extract src/build/opcode/vm.rs :: impl VM :: fn op_func
+//@   rule R1 R3
+//@   subst "\"Fault!!! Bad Argument List\".into()" => "verif_msg()"
+//@   subst "let mut bindings = Vec::new();" => "let mut bindings: Vec<Rc<str>> = Vec::new();"
+//@   ret r
+//@   sig <<<
+        requires old(self).stack@.len() >= 1
+        ensures
+            // defining a function does not change the scope it is defined in ...
+            scope_of(*final(self)) == scope_of(*old(self)),
+            // ... and the function value captures a copy of exactly the bindings that exist at its definition
+            r is Ok ==> final(self).stack@.len() >= 1
+                && (*final(self).stack@.last().0 matches F(func) && func.snapshot.curr@ == scope_of(*old(self))),
+//@   >>>
+//@   loop 1 iter it <<<
+                invariant scope_snapshot.curr@ == scope_of(*old(self)), self.symbols == old(self).symbols,
+//@   >>>
+//@   mutant func_empty_snapshot "let scope_snapshot = self.symbols.snapshot();" => "let scope_snapshot = Stack::new();" expect op_func
 //@ end
 
 } // verus!
